@@ -1297,6 +1297,12 @@ htp_status_t htp_connp_RES_IDLE(htp_connp_t *connp) {
         if (connp->out_tx == NULL) {
             return HTP_ERROR;
         }
+
+        // The new transaction has just become the inbound transaction as well, and
+        // the inbound body counters have been reset: put the inbound parser into the
+        // matching state straight away, also for the case that we fail below.
+        connp->in_state = htp_connp_REQ_FINALIZE;
+
         connp->out_tx->parsed_uri = htp_uri_alloc();
         if (connp->out_tx->parsed_uri == NULL) {
             return HTP_ERROR;
@@ -1310,7 +1316,6 @@ htp_status_t htp_connp_RES_IDLE(htp_connp_t *connp) {
             return HTP_ERROR;
         }
 
-        connp->in_state = htp_connp_REQ_FINALIZE;
 #ifdef HTP_DEBUG
         fprintf(stderr, "picked up response w/o request");
 #endif
